@@ -45,7 +45,11 @@ def get_metric(name):
         return WeightedLevenshtein(1, 2, 3)
 
     class LenDiff(Metric):
+        # a memoising metric whose truth value is False while its memo is empty: "all Metric objects" includes those
         name = "lendiff"
+
+        def __len__(self):
+            return 0
 
         def calc_cdist_matrix(self, A, B):
             return np.array([[abs(len(a) - len(b)) for b in B] for a in A]).reshape(len(A), len(B))
